@@ -179,3 +179,159 @@ def issuer_fingerprint():
 
 def scenarios():
     return [creation_time(), expiration('SignatureExpirationTime'), expiration('KeyExpirationTime'), issuer(), boolean_bytes(), issuer_fingerprint()]
+
+
+def flaglist(clsname, enum):
+    """FlagList (preference lists, RFC 4880 5.2.3.7-9): one octet per algorithm id, in order; parse consumes header.length - 1 octets"""
+    label = 'C02/subpackets.%s' % clsname
+
+    def gen(repo):
+        obls, funcs, paths = [], [], 0
+        cls = SP + clsname
+        # ---- bytes: three preferences (symbolic ids)
+        r = scn.Run(repo, SP + 'FlagList', '__bytearray__', label + '[bytes]')
+        ex, st = r.ex, r.st
+        HDR = z3.Const('SUBPACKET_HEADER', B)
+        ids = [z3.Int('alg%d' % i) for i in range(3)]
+        st.pc += [z3.And(x >= 0, x < 256) for x in ids]
+        r.set('sp', '_flags', ex.new_list(st, [E.VInt(x) for x in ids]))
+        _hdr_hooks(r, HDR)
+        for pi, (s, v) in enumerate(r.call(E.VObj(cls, 'sp'), [])):
+            paths += 1
+            if isinstance(v, E.Raise):
+                r.oblige(s, 'safety(%s)/p%d' % (v.exc, pi), z3.BoolVal(False), v.where)
+                continue
+            # includes id 0 (Plaintext / Uncompressed): int_to_bytes has a minimum width of one octet
+            r.oblige(s, 'one-octet-per-preference-in-order/p%d' % pi, ex.seq(v, s) == cat(HDR, *[U(x) for x in ids]))
+        res = r.result()
+        obls += res['obligations']
+        funcs += res['funcs']
+        # ---- parse: header.length - 1 octets, whatever the count (loop contract)
+        r2 = scn.Run(repo, SP + 'FlagList', 'parse', label + '[parse]')
+        ex, st = r2.ex, r2.st
+        OLD = z3.Const('RECEIVED', B)
+        N = z3.Int('n_preferences')
+        st.pc += [N >= 0, N <= z3.Length(OLD)]
+        buf = ex.new_buf(st, OLD)
+        _hdr_hooks(r2, z3.Const('H', B))
+        hdr = E.VObj('pgpy.packet.subpackets.types.Header', 'hdr')
+        r2.set('sp', 'header', hdr)
+        r2.set('hdr', '_len', E.VInt(N + 1))
+        r2.hook('pgpy.packet.subpackets.types.Header', 'length', scn.const(E.VInt(N + 1)))
+        flags = ex.new_buf(st, z3.Empty(B))          # the list of numbers, abstracted to its sequence of values
+        r2.set('sp', '_flags', flags)
+
+        def to_member(ex, st, c, a):
+            # Enum(value): the member with that value, or ValueError; either way the number kept is the octet
+            known = z3.Bool('known_id_%d' % len(st.pc))
+            bad = st.clone()
+            st.pc.append(known)
+            bad.pc.append(z3.Not(known))
+            return [(st, a[0]), (bad, E.Raise('ValueError', 0))]
+        r2.hook(enum, '__call__', to_member)
+
+        def inv(ex, st, env, i):
+            cur, fl = st.heap[buf.cell], st.heap[flags.cell]
+            return z3.And(cur == z3.Extract(OLD, i, z3.Length(OLD) - i), fl == z3.Extract(OLD, 0, i), i <= z3.Length(OLD))
+
+        def havoc(ex, st, env):
+            st.heap[buf.cell] = E.fresh('buffer', B)
+            st.heap[flags.cell] = E.fresh('flags', B)
+        loops = ex.register_loops('parse', r2.node)
+        if len(loops) != 1 or not isinstance(loops[0], __import__('ast').For):
+            raise E.ToolLimit('FlagList.parse no longer has the single for loop the loop contract is written for')
+        ex.loops[('parse', 0)] = {'name': 'one-octet-per-preference', 'inv': inv, 'havoc': havoc}
+        for pi, (s, v) in enumerate(r2.call(E.VObj(cls, 'sp'), [buf])):
+            paths += 1
+            if isinstance(v, E.Raise):
+                r2.oblige(s, 'safety(%s)/p%d' % (v.exc, pi), z3.BoolVal(False), v.where)
+                continue
+            r2.oblige(s, 'preferences-are-the-next-n-octets-in-order/p%d' % pi, s.heap[flags.cell] == z3.Extract(OLD, 0, N))
+            r2.oblige(s, 'consumes-n-octets/p%d' % pi, s.heap[buf.cell] == z3.Extract(OLD, N, z3.Length(OLD) - N))
+        res2 = r2.result()
+        return {'obligations': obls + res2['obligations'], 'funcs': funcs + res2['funcs'], 'paths': paths}
+    return Scenario(label, SP + 'FlagList', gen, props=('C02', 'C08'))
+
+
+_base_scn = scenarios
+
+
+def scenarios():
+    return _base_scn() + [flaglist('PreferredSymmetricAlgorithms', 'pgpy.constants.SymmetricKeyAlgorithm'),
+                          flaglist('PreferredHashAlgorithms', 'pgpy.constants.HashAlgorithm'),
+                          flaglist('PreferredCompressionAlgorithms', 'pgpy.constants.CompressionAlgorithm')]
+
+
+def byteflag(clsname, enum, noctets):
+    """ByteFlag (key flags, features, key server preferences: RFC 4880 5.2.3.17, .21, .24): the or of the flag values"""
+    label = 'C02/subpackets.%s[%d octet%s]' % (clsname, noctets, '' if noctets == 1 else 's')
+
+    def gen(repo):
+        obls, funcs, paths = [], [], 0
+        cls = SP + clsname
+        members = repo.enum_members(enum)
+        HC = 'pgpy.packet.subpackets.types.Header'
+        # ---- bytes
+        r = scn.Run(repo, SP + 'ByteFlag', '__bytearray__', label + '[bytes]')
+        ex, st = r.ex, r.st
+        HDR = z3.Const('SUBPACKET_HEADER', B)
+        st.pc += [z3.Length(HDR) == 2]                 # one length octet and the type octet
+        has = {m: z3.Bool('has_' + m) for m in members}
+        names = sorted(members, key=lambda m: members[m])
+        r.set('sp', '_flags', E.VSet([E.VInt(members[m], enum=enum) for m in names], [has[m] for m in names]))
+        _hdr_hooks(r, HDR)
+        r.set('sp', 'header', E.VObj(HC, 'hdr'))
+        r.hook(HC, 'llen', scn.const(E.VInt(1)))
+        r.hook(HC, 'length', scn.const(E.VInt(1 + noctets)))
+        total = sum([z3.If(has[m], members[m], 0) for m in names], z3.IntVal(0))
+        for pi, (s, v) in enumerate(r.call(E.VObj(cls, 'sp'), [])):
+            paths += 1
+            if isinstance(v, E.Raise):
+                r.oblige(s, 'safety(%s)/p%d' % (v.exc, pi), z3.BoolVal(False), v.where)
+                continue
+            r.oblige(s, 'flag-octet-is-the-or-of-the-flags-held,zero-padded-to-the-stated-length/p%d' % pi,
+                     ex.seq(v, s) == cat(HDR, U(total), *[U(0)] * (noctets - 1)))
+        res = r.result()
+        obls += res['obligations']
+        funcs += res['funcs']
+        # ---- parse
+        r2 = scn.Run(repo, SP + 'ByteFlag', 'parse', label + '[parse]')
+        ex, st = r2.ex, r2.st
+        OLD = z3.Const('RECEIVED', B)
+        st.pc += [z3.Length(OLD) >= noctets]
+        buf = ex.new_buf(st, OLD)
+        _hdr_hooks(r2, z3.Const('H', B))
+        r2.set('sp', 'header', E.VObj(HC, 'hdr'))
+        r2.hook(HC, 'length', scn.const(E.VInt(1 + noctets)))
+        r2.set('sp', '_flags', E.VSet([]))
+        for pi, (s, v) in enumerate(r2.call(E.VObj(cls, 'sp'), [buf])):
+            paths += 1
+            if isinstance(v, E.Raise):
+                r2.oblige(s, 'safety(%s)/p%d' % (v.exc, pi), z3.BoolVal(False), v.where)
+                continue
+            fl = s.heap.get(('sp', '_flags'))
+            ok = isinstance(fl, E.VSet)
+            r2.oblige(s, 'flags-is-a-set/p%d' % pi, z3.BoolVal(ok))
+            if not ok:
+                continue
+            for m in names:
+                present = [c if fl.conds is not None else z3.BoolVal(True) for x, c in zip(fl.items, fl.conds or [None] * len(fl.items)) if x.conc() == members[m]]
+                held = z3.Or(*present) if present else z3.BoolVal(False)
+                # the first octet carries the defined flags (RFC 4880 5.2.3.21: "the first octet")
+                bit = (OLD[0] / members[m]) % 2 == 1
+                if noctets == 1:
+                    r2.oblige(s, 'holds-%s-iff-its-bit-is-set-in-the-first-octet/p%d' % (m, pi), held == bit)
+                else:
+                    r2.oblige(s, 'holds-%s-if-its-bit-is-set-in-the-first-octet/p%d' % (m, pi), z3.Implies(bit, held))
+            r2.oblige(s, 'consumes-the-stated-octets/p%d' % pi, s.heap[buf.cell] == z3.Extract(OLD, noctets, z3.Length(OLD) - noctets))
+        res2 = r2.result()
+        return {'obligations': obls + res2['obligations'], 'funcs': funcs + res2['funcs'], 'paths': paths}
+    return Scenario(label, SP + 'ByteFlag', gen, props=('C02', 'C08', 'C16'))
+
+
+_base_scn_b = scenarios
+
+
+def scenarios():
+    return _base_scn_b() + [byteflag('KeyFlags', 'pgpy.constants.KeyFlags', 1), byteflag('KeyFlags', 'pgpy.constants.KeyFlags', 2),
+                            byteflag('Features', 'pgpy.constants.Features', 1), byteflag('KeyServerPreferences', 'pgpy.constants.KeyServerPreferences', 1)]
